@@ -81,6 +81,22 @@ def _history(draw, gen: int, max_ops: int):
             rec[field] += draw(st.sampled_from([1, 1, -1]))
         at = draw(st.integers(len(first), len(ops)))
         ops[at:at] = creep
+    # an error that comes, goes and comes back (one history in three): the description is one of at most two texts, so the
+    # same text is reported again after the error had cleared - which still is a change the subscribers must hear of
+    if draw(st.integers(0, 2)) == 0:
+        n = draw(st.sampled_from(ac_ids))
+        base = draw(con.ac_state_strategy(gen, n))
+        texts = draw(st.lists(st.text(st.characters(min_codepoint=0x20, max_codepoint=0x7E), min_size=1, max_size=10), min_size=1, max_size=2))
+        story = [["error_mode", draw(st.sampled_from(["text", "text", "silent"])), {str(n): texts[0]}]]
+        for c in draw(st.lists(st.sampled_from([0, 0x0101, 0x0101, 0xFFFE]), min_size=3, max_size=7)):
+            story.append(["ac_status", [dict(base, error_code=c)]])
+            k = draw(st.integers(0, 2))
+            if k == 0:
+                story.append(["error_info", n, draw(st.sampled_from(texts))])
+            elif k == 1:
+                story.append(["error_mode", draw(st.sampled_from(["text", "silent"])), {str(n): draw(st.sampled_from(texts))}])
+        at = draw(st.integers(len(first), len(ops)))
+        ops[at:at] = story
     # resolve "unsubscribe_nth" against the subscriptions active at that point
     active, out = [], []
     for o in ops:
